@@ -3,7 +3,17 @@
    once per registration and only while registered is C04, the event loop).
 
    The kernel's answer to the recv/send issued by callback_buf is an input; theorems quantify
-   over all answer sequences.  Sizes are nat (size_t without a bound: the two SSIZE_MAX asserts
+   over all answer sequences.
+
+   network_write.c's callback_buf has two build configurations: the default one passes
+   MSG_NOSIGNAL to send(); -DPOSIXFAIL_MSG_NOSIGNAL (platforms without the flag) passes 0 and
+   brackets the call with signal(SIGPIPE, SIG_IGN) / signal(SIGPIPE, old), saving errno over the
+   second signal().  [write_cb] is configuration-independent: it is the function of the send()
+   ANSWER - return value and the errno send itself left - that both configurations implement;
+   the SIGPIPE and errno bookkeeping around the call is not part of it.  The correspondence run
+   (areas/net.py) executes the C in BOTH configurations against this one machine, with a scripted
+   poll()/signal() that leave a rotating errno behind, and checks the flags / SIGPIPE disposition
+   of every send() per configuration.  Sizes are nat (size_t without a bound: the two SSIZE_MAX asserts
    are not modelled), bytes are N, callback values Z.  No proofs in this file. *)
 From Coq Require Import NArith ZArith List Bool Arith.
 From LCP Require Import Base.CheckedMem.
@@ -103,7 +113,7 @@ Section RW.
   Definition wr_tryagain (C : wrstate) (reg_ok : bool) : res (wrstate * action) :=
     if reg_ok then Ok (C, ARearm) else Ok (C, ARearmFailed).
 
-  (* callback_buf of network_write.c (MSG_NOSIGNAL build) *)
+  (* callback_buf of network_write.c (either build configuration, see the header) *)
   Definition write_cb (C : wrstate) (ans : sanswer) (reg_ok : bool) : res (wrstate * action) :=
     match ans with
     | SSent 0 => AssertFail                                      (* assert(len != 0) *)
